@@ -87,6 +87,11 @@ CHECKS = {
     technique="the text emitted by the real generate_code (einsum and libtensor) is parsed and evaluated by an independent interpreter that returns polynomials in symbolic tensor entries (nested contractions, block names checked against index letters, prefactors, permutation operators applied to the target assignment); z3 decides equality with the expression's value for all entries and all target assignments in the requested order",
     text="Generated expressions (single tensors, traces, outer products, nested contractions, symmetry partners) x 11 target-string shapes in random requested order x bra-ket 0/+1/-1 x (anti)symmetric result x both back ends x optimised/unoptimised x limits.",
     note="Models <=2o2v; inputs with non-unique index names or ambiguous printed block names are skipped and counted; documented NotImplementedError refusals give no verdict (in this sympy version every sqrt prefactor is refused: the branch compares the exponent with the float 0.5)."),
+ "C12": dict(
+    level=TV, design="2/C12", engine="detref",
+    technique="z3 identity check of every registered intermediate's expanded definition (once and fully expanded; default, permuted and numbered index tuples) against explicit RSPT amplitudes / densities / RE residuals computed on occupation bit strings, against the independently derived residuals, and against its own lower-level expansion; declared tensor symmetries checked by z3 on the expanded expression",
+    text="t2_1, t1_2, t2_2, t3_2, t1_3, t2_3, p0_2_oo/vv, p0_3_oo/ov/vv, the three RE residuals, t2eri_1..7, t2eri_A/B, t2sq in models max(2,#occ) x max(2,#virt) (thorough: also 3o3v); stage 2 (cleared denominators) decides the fully expanded forms whose denominators adcgen multiplies out.",
+    note="Real orbital basis. Quadruples (t4_2, its contribution to t2_3) vanish below 4o4v and are outside (t4_2's symmetry in 4o4v in the thorough tier). t2eri_1..7 / t2sq: only expansion consistency and declared symmetry (no independent oracle for their naming). Spin blocks: C15."),
 }
 NA_REASON = "check not built yet in this round (planned, see DESIGN.md section 2)"
 
